@@ -70,6 +70,71 @@ CLAIMED = {
         note='RDKit replaced by fakes (identity = mutual substructure test, validated on real molecules); the real '
              'function is also replayed on ethane with real RDKit',
         technique=A + 'symbolic successor relation (solver-enumerated)', ref='DESIGN.md 4/C17'),
+    'C02': dict(
+        text='The real GetDescriptors/_AssignCenterPattern/_AssignGroup/_AssignDescriptor/_aromatization_Benson run on fake '
+             'molecules whose adjacency, per-(pattern, atom) match flags, matched index tuples, ring elements and bond types are '
+             'chosen by the solver; every reachable configuration within the bound is explored and compared with an '
+             'independently written decomposition (one centre per atom else PatternMatchError, groups from neighbours, distinct '
+             'atom sets, linear remaps, Benson ring rule). Bounded exhaustive over the Python layer; RDKit embedding assumed.',
+        note='RDKit behind fakes/FakeMatcher; with all inputs realised the scheme code runs outside the tracer (real CPython '
+             'set order); API-level witnesses replayed with real RDKit',
+        technique=A + 'solver-enumerated discrete configurations', ref='DESIGN.md 4/C02'),
+    'C03': dict(
+        text='Renumbering-equivariance of the same Python layer: for every molecule/match configuration in the bound and every '
+             'renumbering and match order, the descriptors (or the failure) are unchanged; correction-descriptor counts are '
+             'invariant under index shifts (real set iteration order). What RDKit does between the string and the graph is '
+             'assumed; random SMILES spellings are replayed concretely.',
+        note='same fakes as C02', technique=A + 'solver-enumerated configurations and permutations', ref='DESIGN.md 4/C03'),
+    'C04': dict(
+        text='Additivity of the Python layer under a local matcher: for all component configurations in the bound, descriptors '
+             'of the disjoint union equal the sum, and the pair fails iff a component fails.',
+        note='locality of RDKit matching assumed; shipped schemes checked at run time to use no molecule-level prefix',
+        technique=A + 'solver-enumerated configurations', ref='DESIGN.md 4/C04'),
+    'C08': dict(
+        text='Each pure-Python constraint evaluator is executed on fake atoms/bonds with symbolic attributes (unbounded '
+             'symbolic integers for radical counts, charges and the comparison number) and compared with its denotation; the '
+             'filter pipeline of GetQueryMatches is explored over symbolic constraint outcomes; every constraint form is read '
+             'from text by the real reader and its constraint objects evaluated symbolically; whitespace and label-name holes '
+             'go through the real parser. Bounded; RDKit embedding search assumed.',
+        note='RDKit fakes validated against real atoms/bonds/ring info; whitespace free between tokens only',
+        technique=A + 'symbolic integers/booleans, symbolic characters for layout', ref='DESIGN.md 4/C08'),
+    'C12': dict(
+        text='The real loaders (qty_loader, ObjectLoader, yaml_construct) run on the tree of one group entry with symbolic real '
+             'values in three presentations (default-unit block, explicit quantities, non-dimensional): z3 shows each yields '
+             'the same plain-number correlation, zero included, and that a unit-less dimensional value is rejected.',
+        note='tree as libyaml would produce it; units parser itself is C10; float := real',
+        technique=A + 'symbolic real values through the real unit algebra', ref='DESIGN.md 4/C12'),
+    'C13': dict(
+        text='One inductive update step from two arbitrary valid correlation states (symbolic optional H/S incl. zero, Cp '
+             'points, ranges, overwrite): z3 shows conflict detection, field-wise union, no change on rejection, no change of '
+             'the source, idempotence and symmetry; library-level Update likewise. Histories follow by induction.',
+        note='float := real; FITPACK behind Newton interpolation; duplicate spellings in a file replayed concretely',
+        technique=A + 'inductive step over symbolic states', ref='DESIGN.md 4/C13'),
+    'C15': dict(
+        text='Every history of <= 4-6 operations (decompose, estimate+evaluate, merge, construct scheme) on real Library/Scheme/'
+             'estimator objects over stubbed chemistry, followed by probes whose expected values are computed analytically.',
+        note='chemistry stubbed; API-level replay with BensonGA and real RDKit', technique=A + 'symbolic operation histories '
+             '(bounded model checking)', ref='DESIGN.md 4/C15'),
+    'C16': dict(
+        text='Rule texts with every sequence of <= 2-3 edits are read by the real Read and accepted iff the independently computed '
+             'per-atom electron balance is zero; each transformation class is executed on a fake RWMol with symbolic integers '
+             'and a symbolic injective index mapping and must change exactly the declared field; RunReactants yields one '
+             'product set per match from a fresh copy.',
+        note='RDKit fakes for the edit layer; GetMolFrags/sanitisation outside; the C-H scission rule replayed on ethane',
+        technique=A + 'symbolic index mapping and integers', ref='DESIGN.md 4/C16'),
+    'C18': dict(
+        text='The real yaml_format output (numbers as placeholder tokens) is parsed by the real libyaml and rebuilt by the real '
+             'loaders: z3 shows the reloaded correlation equals the original for all real values (zero, negative, missing '
+             'parts) and 15 unit choices. The six-significant-digit clause is not decided symbolically; concrete round trips '
+             'with real rendering run in validation.',
+        note='decimal rendering assumed the identity on reals (TextTokens)', technique=A + 'symbolic reals behind text '
+             'placeholders', ref='DESIGN.md 4/C18'),
+    'C19': dict(
+        text='Solver-enumerated exhaustive exploration of multiplicity vectors, supply orders and run-length spellings over a '
+             'concrete alphabet from the shipped library: equality/hash/lookup iff same centre and multiset, canonical-name '
+             'round trip, string interchangeability, malformed counts rejected.',
+        note='names concrete (character-level universality out of reach); the weakest fit of the technique among the claims',
+        technique=A + 'solver-enumerated small integers', ref='DESIGN.md 4/C19'),
     'C20': dict(
         text='z3 shows that the radicand handed to sqrt equals RMSE^2 * x.M.x for symbolic real counts and RMSE (concrete '
              'and symbolic 3x3 M; concrete shipped M on seeded basis subsets), that scaling multiplies it by c^2, that '
